@@ -43,6 +43,12 @@ def cond(e):
         for op, right in zip(e.ops, e.comparators):
             if type(op) is ast.NotEq:
                 parts.append("negb (%s =? %s)" % (expr(left), expr(right)))
+            elif type(op) in (ast.In, ast.NotIn):
+                # membership in a literal tuple/list of integers or named constants
+                if not isinstance(right, (ast.Tuple, ast.List)) or not right.elts or len(e.ops) != 1:
+                    raise TranslateError("unsupported membership test")
+                mem = "(" + " || ".join("(%s =? %s)" % (expr(left), expr(x)) for x in right.elts) + ")"
+                parts.append(mem if type(op) is ast.In else "negb " + mem)
             elif type(op) in CMPOPS:
                 parts.append("(%s %s %s)" % (expr(left), CMPOPS[type(op)], expr(right)))
             else:
